@@ -195,6 +195,9 @@ def lis_source(variant):
     from props import c06
     cfg = [c06.chan('DEPT', 68, units='FEET'), c06.chan('GR  ', 68, units='GAPI'), c06.chan('SP  ', 79, 2, 1, units='MV  ')]
     indirect = variant.get('indirect', 0)
+    if variant.get('nul'):
+        # mnemonics shorter than four characters padded with NUL bytes, as some producers write them (a name is a name however padded)
+        cfg = [c06.chan('DEPT', 68, units='FEET'), c06.chan('GR\x00\x00', 68, units='GAPI'), c06.chan('SP\x00\x00', 79, 2, 1, units='MV  ')]
     if variant.get('perm'):
         cfg = [cfg[0], cfg[2], cfg[1]]
     if variant.get('dip'):
@@ -230,7 +233,7 @@ def lis_source(variant):
                             for f in range(sp['n'])]
                     chans.append({'name': nm, 'values': vals, 'int': False, 'index': c, 'select': ch['mnem'].strip()})
                 continue
-            chans.append({'name': ch['mnem'].strip(), 'values': [list(model['matrix'][f][c]) for f in range(sp['n'])],
+            chans.append({'name': ch['mnem'].strip(' \x00'), 'values': [list(model['matrix'][f][c]) for f in range(sp['n'])],
                           'int': False, 'index': c})
         passes.append({'n': sp['n'], 'channels': chans, 'ident': str(k), 'x_units': 'FEET', 'fpr': sp['fpr'], 'spec': sp,
                        'model': model})
@@ -478,7 +481,7 @@ def check_conversion(fmt, variant, opts, workdir, before=()):
                         '%s: selection %r of %d frames is %r but %d rows were written' % (path, sel, n, idx, len(rows))))
         names = [m for m, _u in las['curves']]
         exp_names = [p['channels'][c]['name'].strip() for c in cols]
-        if [x.strip() for x in names] != exp_names:
+        if [x.strip(' \x00') for x in names] != exp_names:      # (padding of a name, blank or NUL, is not part of the name)
             bad.append(({'kind': 'curve_columns', 'format': fmt}, '%s: curve section lists %r, expected X + requested = %r' % (path, names, exp_names)))
         if rows and any(len(r) != len(cols) for r in rows):
             fused = all(len(r) < len(cols) for r in rows if len(r) != len(cols))
@@ -576,6 +579,11 @@ def gen_cases(tier, fmt):
                     for ff in ('.3f', '.6f'):
                         yield {'variant': {'indirect': 68} if (fmt == 'lis' and width == 4) else {},
                                'opts': {'sel': sel, 'channels': chs, 'reduction': red, 'width': width, 'fmt': ff}}
+    # field widths around the printed width of the values (narrower, equal, one wider): columns must stay separate
+    for width in (5, 6, 7, 8, 9, 10, 11):
+        for ff in ('.3f', '.1f'):       # (not .0f: the index values must stay distinct as printed)
+            yield {'variant': {}, 'opts': dict(DEFAULT, width=width, fmt=ff)}
+            yield {'variant': {'two': True}, 'opts': dict(DEFAULT, width=width, fmt=ff, channels=CHANNEL_SETS[fmt][1])}
     if fmt == 'rp66':
         yield {'variant': {'origin': 'minimal'}, 'opts': dict(DEFAULT)}
         for chs in CHANNEL_SETS[fmt] + [['IMG'], ['MAT', 'GR'], ['IMG', 'WAVE']]:
@@ -594,6 +602,9 @@ def gen_cases(tier, fmt):
                     for two in (False, True):
                         yield {'variant': dict({'two': True} if two else {}, same_index_first=first), 'opts': dict(DEFAULT, sel=sel, channels=chs)}
     if fmt == 'lis':
+        for chs in ([], ['GR  '], ['GR'], ['SP  ', 'GR  '], ['SP']):
+            for extra in ({}, {'indirect': 68}):
+                yield {'variant': dict(extra, nul=True), 'opts': dict(DEFAULT, channels=chs)}
         # dipmeter channels: one LAS column per sub-channel
         for dip in (130, 234):
             for extra in ({}, {'indirect': 68}, {'perm': True}):
